@@ -26,7 +26,13 @@ STDLIB_CONSTS = {
     ('string', 'whitespace'): string.whitespace,
     ('string', 'digits'): string.digits,
     ('string', 'ascii_uppercase'): string.ascii_uppercase,
+    ('string', 'ascii_lowercase'): string.ascii_lowercase,
+    ('string', 'ascii_letters'): string.ascii_letters,
+    ('string', 'printable'): string.printable,
 }
+import re as _re
+for _n in ('DOTALL', 'S', 'IGNORECASE', 'I', 'MULTILINE', 'M', 'VERBOSE', 'X', 'ASCII', 'A', 'UNICODE', 'U'):
+    STDLIB_CONSTS[('re', _n)] = int(getattr(_re, _n))
 
 
 def unparse(node):
